@@ -17,13 +17,16 @@
 (*                                                                         *)
 (* Actions (names m, s, p):                                                 *)
 (*   IMulO x *= y    IMulS x *= scalar    IAddO x += y    ISubO x -= y       *)
-(*   Compress x.compress(n_qubits=N) / x.compress() (only when the highest   *)
-(*            qubit is still in use, so that both forms mean the same)       *)
-(*   Remove   x.remove_terms(index) / x.remove_terms([i, j])                 *)
+(*   CompressDD .. CompressBN  x.compress(abs_tol, n_qubits): one action per  *)
+(*            combination of abs_tol in (not given, 1e-12, 1.5 = removes the  *)
+(*            components of modulus 1) and n_qubits in (not given = the       *)
+(*            register shrinks to count_qubits, N)                            *)
+(*   RemoveInt / RemoveList / RemoveArray  x.remove_terms(i | [i, j] | array) *)
 (*   Mul      r := x * y             (array product, collapse inside)        *)
 (*   AddCollapse r := from_integerop of collapse(stacked rows of x and y)    *)
 (*   Commute  do_commute(x, y, term_resolved) - both orders, both flags      *)
-(*   RoundTrip r := from_qubitop(x.qubitoperator, N); r.compress(n_qubits=N) *)
+(*   RoundTripN / RoundTripD  r := from_qubitop(x.qubitoperator[, N]) and     *)
+(*            r.compress([n_qubits=N])  (with / without the optional width)  *)
 (*   GetKernel x.get_kernel()                                                *)
 (* Every step exports, for every row of the array value, the exact rows of   *)
 (* ALL derived forms (integer code 0 I 1 Z 2 X 3 Y; binary (x|z); swapped    *)
@@ -44,24 +47,29 @@ Names == {"m", "s", "p"}
 VARIABLES heap, d, hist, h0
 vars == <<heap, d, hist, h0>>
 
-\* ---- encodings of the array forms ------------------------------------------------------------
+\* ---- encodings of the array forms (n = register width of the object) ---------------------------------
 IntCode(l) == CASE l = 0 -> 0 [] l = 1 -> 2 [] l = 2 -> 3 [] l = 3 -> 1
-IntRow(w)  == TLCEval([q \in 1..N |-> IntCode(w[q])])
+IntRowN(w, n)  == TLCEval([q \in 1..n |-> IntCode(w[q])])
 XBit(l) == IF l \in {1, 2} THEN 1 ELSE 0
 ZBit(l) == IF l \in {2, 3} THEN 1 ELSE 0
-BinRow(w)  == TLCEval([c \in 1..(2 * N) |-> IF c <= N THEN XBit(w[c]) ELSE ZBit(w[c - N])])
-SwapRow(w) == TLCEval([c \in 1..(2 * N) |-> IF c <= N THEN ZBit(w[c]) ELSE XBit(w[c - N])])
+BinRowN(w, n)  == TLCEval([c \in 1..(2 * n) |-> IF c <= n THEN XBit(w[c]) ELSE ZBit(w[c - n])])
+SwapRowN(w, n) == TLCEval([c \in 1..(2 * n) |-> IF c <= n THEN ZBit(w[c]) ELSE XBit(w[c - n])])
+IntRow(w) == IntRowN(w, N)
+BinRow(w) == BinRowN(w, N)
+SwapRow(w) == SwapRowN(w, N)
 
 EncodingOK ==
   \A a, b \in AllWords(N) :
      (SumSeq([c \in 1..(2 * N) |-> SwapRow(a)[c] * BinRow(b)[c]], 2 * N) % 2 = 0) <=> CommuteWords(a, b, N)
 
 \* ---- objects -----------------------------------------------------------------------------------
-MObj(v, a, k) == [ex |-> TRUE, val |-> v, arr |-> a, k |-> k]
-MNull == [ex |-> FALSE, val |-> OpZero, arr |-> OpZero, k |-> FALSE]
+\* n = the register width the array forms are built for (n_qubits); words keep length N, a width n < N is only
+\* reached when no word acts on the qubits n..N-1
+MObj(v, a, k, n) == [ex |-> TRUE, val |-> v, arr |-> a, k |-> k, n |-> n]
+MNull == [ex |-> FALSE, val |-> OpZero, arr |-> OpZero, k |-> FALSE, n |-> 0]
 
-ArrX(v) == SetToSeq({[w |-> w, re |-> v[w].c[1], im |-> v[w].c[GI], int |-> IntRow(w), bin |-> BinRow(w), swp |-> SwapRow(w)] : w \in DOMAIN v})
-MObjX(o) == [ex |-> o.ex, val |-> ValSeq(o.val), arr |-> ArrX(o.arr), k |-> o.k]
+ArrX(v, n) == SetToSeq({[w |-> w, re |-> v[w].c[1], im |-> v[w].c[GI], int |-> IntRowN(w, n), bin |-> BinRowN(w, n), swp |-> SwapRowN(w, n)] : w \in DOMAIN v})
+MObjX(o) == [ex |-> o.ex, val |-> ValSeq(o.val), arr |-> ArrX(o.arr, o.n), k |-> o.k, n |-> o.n]
 HeapX(h) == [m |-> MObjX(h["m"]), s |-> MObjX(h["s"]), p |-> MObjX(h["p"])]
 
 \* named value sets for the configuration files
@@ -69,7 +77,7 @@ W1(a, b) == <<a, b>>
 MV1 == OpAdd(Val1(W1(1, 3), FromInt(2)), Val1(W1(2, 0), RI))                         \* 2 X0Z1 + i Y0
 MV2 == OpAdd(OpAdd(Val1(W1(1, 0), ROne), Val1(W1(3, 1), Neg(ROne))), Val1(W1(0, 0), FromInt(2)))   \* X0 - Z0X1 + 2
 MV3 == OpAdd(Val1(W1(1, 1), ROne), Val1(W1(2, 2), ROne))                              \* X0X1 + Y0Y1
-SV1 == Val1(W1(3, 0), ROne)                                                            \* Z0       (single word)
+SV1 == Val1(W1(3, 0), ROne)                                                            \* Z0       (single word, last qubit idle)
 SV2 == OpAdd(Val1(W1(3, 3), ROne), Val1(W1(0, 1), RI))                                 \* Z0Z1 + i X1
 SV3 == OpAdd(Val1(W1(3, 0), ROne), Val1(W1(0, 3), ROne))                               \* Z0 + Z1
 ValsMSmall == {MV1, MV3}
@@ -82,21 +90,30 @@ TargetsP   == {"p"}
 TargetsAll == Names
 
 Init == \E vm \in ValsM, vs \in ValsS :
-          /\ heap = [n \in Names |-> IF n = "m" THEN MObj(vm, vm, FALSE) ELSE IF n = "s" THEN MObj(vs, vs, FALSE) ELSE MNull]
+          /\ heap = [n \in Names |-> IF n = "m" THEN MObj(vm, vm, FALSE, N) ELSE IF n = "s" THEN MObj(vs, vs, FALSE, N) ELSE MNull]
           /\ d = 0
           /\ hist = <<>>
           /\ h0 = HeapX(heap)
 
-\* the array forms are only meaningful when they are in sync with the terms: the array-reading operations are
-\* exercised on synced objects (after construction, compress, remove_terms, array products)
+\* the array forms are only meaningful when they are in sync with the terms and built for the full register: the
+\* array-reading operations are exercised on such objects (after construction, compress(n_qubits=N), array products)
 Synced(X) == X.ex /\ X.val = X.arr
+Full(X) == Synced(X) /\ X.n = N
 Reducible(a) == \E u \in AllWords(N) \ {IdWord(N)} : \A v \in DOMAIN a : CommuteWords(u, v, N)     \* a non-trivial symmetry exists
 
 OKVal(v) == ValOK(v, MaxTerms, 0, Bound)
+\* count_qubits: highest qubit acted on + 1 (0 for the empty / identity-only operator)
 CountQ(v) == IF \A w \in DOMAIN v : w = IdWord(N) THEN 0
              ELSE CHOOSE q \in 1..N : (\E w \in DOMAIN v : w[q] # 0) /\ (\A p \in (q + 1)..N : \A w \in DOMAIN v : w[p] = 0)
 
-\* one step (export form).  upd = the object bound to name r after the step
+\* openfermion's compress(abs_tol): real and imaginary parts with |.| <= abs_tol are removed, then terms with
+\* |coefficient| <= abs_tol.  Coefficients are Gaussian integers: abs_tol = 1.5 removes every component of modulus 1.
+TruncC(z) == LET re == IF z.c[1] >= 2 \/ z.c[1] <= -2 THEN z.c[1] ELSE 0
+                 im == IF z.c[GI] >= 2 \/ z.c[GI] <= -2 THEN z.c[GI] ELSE 0
+             IN Add(FromInt(re), Mul(RI, FromInt(im)))
+TruncVal(v) == OpClean(TLCEval([w \in DOMAIN v |-> TruncC(v[w])]))
+
+\* one step (export form).  upd = the object bound to name r after the step; opt = the keyword combination used
 Rec(kind, x, y, r, s, flag, rows, upd, exp) ==
   [kind |-> kind, x |-> x, y |-> y, r |-> r, s |-> s, flag |-> flag, rows |-> rows, upd |-> MObjX(upd), exp |-> exp]
 NoExp == [trw |-> <<>>, tw |-> FALSE, zero |-> FALSE, comm |-> <<>>]
@@ -115,62 +132,74 @@ IMulO(x, y) ==
   /\ LET X == heap[x]
          Y == heap[y]
          v == AMul(X.val, Y.val)
-         new == MObj(v, X.arr, X.k)
+         new == MObj(v, X.arr, X.k, X.n)
      IN /\ X.ex /\ Y.ex /\ OKVal(v)
-        /\ Advance(Rec("imul", x, y, x, 0, FALSE, <<>>, new, NoExp), Put(x, new))
+        /\ Advance(Rec("imul", x, y, x, 0, "", <<>>, new, NoExp), Put(x, new))
 
 IMulS(x, s) ==
   /\ d < MaxDepth
   /\ LET X == heap[x]
          v == OpScale(ScalarVal(s), X.val)
-         new == MObj(v, X.arr, X.k)
+         new == MObj(v, X.arr, X.k, X.n)
      IN /\ X.ex /\ OKVal(v)
-        /\ Advance(Rec("imuls", x, "", x, s, FALSE, <<>>, new, NoExp), Put(x, new))
+        /\ Advance(Rec("imuls", x, "", x, s, "", <<>>, new, NoExp), Put(x, new))
 
 IAddO(x, y, minus) ==
   /\ d < MaxDepth
   /\ LET X == heap[x]
          Y == heap[y]
          v == IF minus THEN ASub(X.val, Y.val) ELSE AAdd(X.val, Y.val)
-         new == MObj(v, X.arr, X.k)
+         new == MObj(v, X.arr, X.k, X.n)
      IN /\ X.ex /\ Y.ex /\ x # y /\ OKVal(v)
-        /\ Advance(Rec(IF minus THEN "isub" ELSE "iadd", x, y, x, 0, FALSE, <<>>, new, NoExp), Put(x, new))
+        /\ Advance(Rec(IF minus THEN "isub" ELSE "iadd", x, y, x, 0, "", <<>>, new, NoExp), Put(x, new))
 
-Compress(x, dflt) ==
+\* compress(abs_tol, n_qubits): every combination of the two documented optional arguments is its own action.
+\*   tol "D" not given (EQ_TOLERANCE), "T" 1e-12, "B" 1.5 (removes the components of modulus 1)
+\*   nq  "D" not given: n_qubits becomes count_qubits(operator);  "N" n_qubits = N
+CompressGen(x, tol, nq) ==
   /\ d < MaxDepth
   /\ LET X == heap[x]
-         new == MObj(X.val, X.val, FALSE)
+         v == IF tol = "B" THEN TruncVal(X.val) ELSE X.val
+         new == MObj(v, v, FALSE, IF nq = "N" THEN N ELSE CountQ(v))
      IN /\ X.ex
-        /\ (dflt => CountQ(X.val) = N)
-        /\ Advance(Rec("compress", x, "", x, 0, dflt, <<>>, new, NoExp), Put(x, new))
+        /\ Advance(Rec("compress", x, "", x, 0, <<tol, nq>>, <<>>, new, NoExp), Put(x, new))
+CompressDD(x) == d < MaxDepth /\ CompressGen(x, "D", "D")
+CompressDN(x) == d < MaxDepth /\ CompressGen(x, "D", "N")
+CompressTD(x) == d < MaxDepth /\ CompressGen(x, "T", "D")
+CompressTN(x) == d < MaxDepth /\ CompressGen(x, "T", "N")
+CompressBD(x) == d < MaxDepth /\ CompressGen(x, "B", "D")
+CompressBN(x) == d < MaxDepth /\ CompressGen(x, "B", "N")
 
-RemoveRows(x, ws) ==
+\* remove_terms(indices): indices an int, a list or a numpy array
+RemoveRows(x, ws, mode) ==
   /\ d < MaxDepth
   /\ LET X == heap[x]
          a == TLCEval([w \in (DOMAIN X.arr) \ ws |-> X.arr[w]])
-         new == MObj(a, a, X.k)
+         new == MObj(a, a, X.k, X.n)
      IN /\ Synced(X) /\ ws # {} /\ ws \subseteq DOMAIN X.arr /\ Cardinality(ws) <= 2
-        /\ Advance(Rec("remove", x, "", x, 0, Cardinality(ws) = 1, SetToSeq({IntRow(w) : w \in ws}), new, NoExp), Put(x, new))
-
-RemoveAny(x) == \E ws \in SUBSET (DOMAIN heap[x].arr) : RemoveRows(x, ws)
+        /\ (mode = "int" => Cardinality(ws) = 1)
+        /\ Advance(Rec("remove", x, "", x, 0, mode, SetToSeq({IntRowN(w, X.n) : w \in ws}), new, NoExp), Put(x, new))
+RemoveInt(x)   == \E ws \in SUBSET (DOMAIN heap[x].arr) : RemoveRows(x, ws, "int")
+RemoveList(x)  == \E ws \in SUBSET (DOMAIN heap[x].arr) : RemoveRows(x, ws, "list")
+RemoveArray(x) == \E ws \in SUBSET (DOMAIN heap[x].arr) : RemoveRows(x, ws, "array")
 
 ArrMul(r, x, y) ==
   /\ d < MaxDepth
   /\ LET X == heap[x]
          Y == heap[y]
          v == AMul(X.arr, Y.arr)
-         new == MObj(v, v, FALSE)
-     IN /\ Synced(X) /\ Synced(Y) /\ X.arr # OpZero /\ Y.arr # OpZero /\ v # OpZero /\ OKVal(v)
-        /\ Advance(Rec("mul", x, y, r, 0, FALSE, <<>>, new, NoExp), Put(r, new))
+         new == MObj(v, v, FALSE, N)
+     IN /\ Full(X) /\ Full(Y) /\ X.arr # OpZero /\ Y.arr # OpZero /\ v # OpZero /\ OKVal(v)
+        /\ Advance(Rec("mul", x, y, r, 0, "", <<>>, new, NoExp), Put(r, new))
 
 AddCollapse(r, x, y) ==
   /\ d < MaxDepth
   /\ LET X == heap[x]
          Y == heap[y]
          v == AAdd(X.arr, Y.arr)
-         new == MObj(v, v, FALSE)
-     IN /\ Synced(X) /\ Synced(Y) /\ X.arr # OpZero /\ Y.arr # OpZero /\ v # OpZero /\ OKVal(v)
-        /\ Advance(Rec("addcollapse", x, y, r, 0, FALSE, <<>>, new, NoExp), Put(r, new))
+         new == MObj(v, v, FALSE, N)
+     IN /\ Full(X) /\ Full(Y) /\ X.arr # OpZero /\ Y.arr # OpZero /\ v # OpZero /\ OKVal(v)
+        /\ Advance(Rec("addcollapse", x, y, r, 0, "", <<>>, new, NoExp), Put(r, new))
 
 Commute(x, y, tr) ==
   /\ d < MaxDepth
@@ -179,39 +208,51 @@ Commute(x, y, tr) ==
          trw == SetToSeq({[int |-> IntRow(w), c |-> \A v \in DOMAIN Y.arr : CommuteWords(w, v, N)] : w \in DOMAIN X.arr})
          tw == \A w \in DOMAIN X.arr : \A v \in DOMAIN Y.arr : CommuteWords(w, v, N)
          exp == [trw |-> trw, tw |-> tw, zero |-> OpIsZero(OpCommutator(X.arr, Y.arr, N)), comm |-> <<>>]
-     IN /\ Synced(X) /\ Synced(Y) /\ X.arr # OpZero /\ Y.arr # OpZero
-        /\ Advance(Rec("commute", x, y, "", 0, tr, <<>>, MNull, exp), heap)
+     IN /\ Full(X) /\ Full(Y) /\ X.arr # OpZero /\ Y.arr # OpZero
+        /\ Advance(Rec("commute", x, y, "", 0, IF tr THEN "tr" ELSE "plain", <<>>, MNull, exp), heap)
 
-RoundTrip(r, x) ==
+\* from_qubitop(x.qubitoperator, n_qubits) with / without the optional argument, followed by compress with the same choice
+RoundTripGen(r, x, nq) ==
   /\ d < MaxDepth
   /\ LET X == heap[x]
-         new == MObj(X.val, X.val, FALSE)
+         new == MObj(X.val, X.val, FALSE, IF nq = "N" THEN N ELSE CountQ(X.val))
      IN /\ X.ex
-        /\ Advance(Rec("roundtrip", x, "", r, 0, FALSE, <<>>, new, NoExp), Put(r, new))
+        /\ Advance(Rec("roundtrip", x, "", r, 0, nq, <<>>, new, NoExp), Put(r, new))
+RoundTripN(r, x) == d < MaxDepth /\ RoundTripGen(r, x, "N")
+RoundTripD(r, x) == d < MaxDepth /\ RoundTripGen(r, x, "D")
 
 GetKernel(x) ==
   /\ d < MaxDepth
   /\ LET X == heap[x]
          comm == SetToSeq({BinRow(w) : w \in {u \in AllWords(N) : \A v \in DOMAIN X.arr : CommuteWords(u, v, N)}})
-         new == MObj(X.val, X.arr, TRUE)
-     IN /\ Synced(X) /\ X.arr # OpZero /\ Reducible(X.arr)
-        /\ Advance(Rec("kernel", x, "", x, 0, FALSE, <<>>, new, [NoExp EXCEPT !.comm = comm]), Put(x, new))
+         new == MObj(X.val, X.arr, TRUE, X.n)
+     IN /\ Full(X) /\ X.arr # OpZero /\ Reducible(X.arr)
+        /\ Advance(Rec("kernel", x, "", x, 0, "", <<>>, new, [NoExp EXCEPT !.comm = comm]), Put(x, new))
 
 Next == \/ \E x \in Names, y \in Names : IMulO(x, y)
         \/ \E x \in Names, s \in Scalars : IMulS(x, s)
         \/ \E x \in Names, y \in Names, minus \in BOOLEAN : IAddO(x, y, minus)
-        \/ \E x \in Names, dflt \in BOOLEAN : Compress(x, dflt)
-        \/ \E x \in Names : RemoveAny(x)
+        \/ \E x \in Names : CompressDD(x)
+        \/ \E x \in Names : CompressDN(x)
+        \/ \E x \in Names : CompressTD(x)
+        \/ \E x \in Names : CompressTN(x)
+        \/ \E x \in Names : CompressBD(x)
+        \/ \E x \in Names : CompressBN(x)
+        \/ \E x \in Names : RemoveInt(x)
+        \/ \E x \in Names : RemoveList(x)
+        \/ \E x \in Names : RemoveArray(x)
         \/ \E r \in Targets, x \in Names, y \in Names : ArrMul(r, x, y)
         \/ \E r \in Targets, x \in Names, y \in Names : AddCollapse(r, x, y)
         \/ \E x \in Names, y \in Names, tr \in BOOLEAN : Commute(x, y, tr)
-        \/ \E r \in Targets, x \in Names : RoundTrip(r, x)
+        \/ \E r \in Targets, x \in Names : RoundTripN(r, x)
+        \/ \E r \in Targets, x \in Names : RoundTripD(r, x)
         \/ \E x \in Names : GetKernel(x)
 
 TypeOK == \A n \in Names : LET o == heap[n] IN
              /\ \A w \in DOMAIN o.val : o.val[w] # RZero /\ IsGauss(o.val[w]) /\ Len(w) = N
              /\ \A w \in DOMAIN o.arr : o.arr[w] # RZero /\ IsGauss(o.arr[w]) /\ Len(w) = N
              /\ (~o.ex => o = MNull)
+             /\ o.n \in 0..N /\ (o.ex => \A w \in DOMAIN o.arr : \A q \in (o.n + 1)..N : w[q] = 0)
 
 \* frame: a step changes at most the object it names as target; do_commute changes nothing
 FrameOK == [][\A n \in Names : (heap'[n] # heap[n]) => (hist'[Len(hist')].r = n /\ hist'[Len(hist')].kind # "commute")]_vars
